@@ -110,14 +110,10 @@ func (rg *rootGeneratorSimple) generateIter() func(yield func(*Node, error) bool
 	}
 }
 
-type rootGeneratorPipeline struct {
-	nodeGenerator *nodeGenerator
-}
+type rootGeneratorPipeline struct{}
 
 func newRootGeneratorPipeline() *rootGeneratorPipeline {
-	return &rootGeneratorPipeline{
-		nodeGenerator: newNodeGenerator(),
-	}
+	return &rootGeneratorPipeline{}
 }
 
 const workerGenerateNum = 10
@@ -159,9 +155,11 @@ func (rg *rootGeneratorPipeline) worker(ctx context.Context, wg *sync.WaitGroup,
 				root    *Node
 				nodes   = newStack()
 				counter = newCounter()
+				// ブロック毎のparser: workerが共有すると、他ブロックの "#" やインデント幅を実行順序次第で引き継いでしまう
+				ng = newNodeGenerator()
 			)
 			for sc.Scan() {
-				currentNode, err := rg.nodeGenerator.generate(sc.Text(), counter.next())
+				currentNode, err := ng.generate(sc.Text(), counter.next())
 				if err != nil {
 					sendErr(ctx, errc, err)
 					return
@@ -189,6 +187,10 @@ func (rg *rootGeneratorPipeline) worker(ctx context.Context, wg *sync.WaitGroup,
 			if err := sc.Err(); err != nil {
 				sendErr(ctx, errc, err)
 				return
+			}
+			if root == nil {
+				// 空行だけのブロック (先頭の空行など)
+				continue
 			}
 			select {
 			case <-ctx.Done():
